@@ -107,6 +107,26 @@ func classes(pki, other *fix.PKI, name certs.Name, rng *vh.Rand) []*presented {
 	bs := fix.Forge(fix.CertSpec{Type: certs.Leaf, Names: []certs.Name{name}, Issued: now.Add(-time.Hour), Expires: now.Add(24 * time.Hour), PublicKey: k.Public, Parent: pki.Int.Fingerprint, SignSeed: nil})
 	add(&presented{Class: "garbage-signature", Leaf: bs, Int: pki.Int, Key: k, Parse: true, LeafType: true, NameOK: true, TimeOK: true, ChainOK: false, HoldsKey: true})
 
+	// an attacker's own intermediate that merely *names* the trusted root as its
+	// parent (signed by the attacker, or carrying a garbage signature), with a
+	// leaf correctly issued under it
+	for _, variant := range []string{"signed-by-attacker", "garbage-signature"} {
+		ak := keys.GenerateNewSigningKeyPair()
+		var iseed *[32]byte
+		if variant == "signed-by-attacker" {
+			iseed = seed(ak)
+		}
+		fint := fix.Forge(fix.CertSpec{Type: certs.Intermediate, Names: []certs.Name{certs.RawStringName("attacker ca")}, Issued: now.Add(-time.Hour), Expires: now.Add(24 * time.Hour),
+			PublicKey: [32]byte(ak.Public), Parent: pki.Root.Fingerprint, SignSeed: iseed})
+		k = keys.GenerateNewX25519KeyPair()
+		fl := fix.Forge(fix.CertSpec{Type: certs.Leaf, Names: []certs.Name{name}, Issued: now.Add(-time.Hour), Expires: now.Add(24 * time.Hour), PublicKey: k.Public, Parent: fint.Fingerprint, SignSeed: seed(ak)})
+		add(&presented{Class: "forged-intermediate-naming-trusted-root:" + variant, Leaf: fl, Int: fint, Key: k, Parse: true, LeafType: true, NameOK: true, TimeOK: true, ChainOK: false, HoldsKey: true})
+	}
+	// a leaf that names our intermediate but was signed by somebody else's
+	k = keys.GenerateNewX25519KeyPair()
+	ls := fix.Forge(fix.CertSpec{Type: certs.Leaf, Names: []certs.Name{name}, Issued: now.Add(-time.Hour), Expires: now.Add(24 * time.Hour), PublicKey: k.Public, Parent: pki.Int.Fingerprint, SignSeed: seed(other.IntKey)})
+	add(&presented{Class: "leaf-signed-by-another-ca", Leaf: ls, Int: pki.Int, Key: k, Parse: true, LeafType: true, NameOK: true, TimeOK: true, ChainOK: false, HoldsKey: true})
+
 	add(&presented{Class: "garbage-bytes", RawLeaf: rng.Bytes(150 + rng.Intn(100)), Key: keys.GenerateNewX25519KeyPair(), HoldsKey: true})
 
 	// keys the verifier may have been told to trust (authorized keys):
